@@ -504,6 +504,27 @@ example : (RebuildHist.relight (fun q => 100 + q) 20
       (RebuildHist.runOps 250 5000 minI64 (fun q => 100 + q) [.write 10 100 109])) 10 10 110 119).pts = [⟨110, 10⟩, ⟨119, 19⟩] := by
   decide
 
+/-! ## the repaired findings #46 and #53 as obligations on the regenerated facts -/
+
+/-- **unknown_tail_window_open** (fix a7caf30, was finding #46): when the journal has confirmed more records of a chunk
+than the time index has been told about (`count > Recs`), `updatePoss` leaves the WHOLE chunk open — whatever hull and
+index say — so no readable record can be hidden behind a hull or an index that does not account for it yet, for any data
+(monotone or not) and for held cursors as well (the cached status is a superset). -/
+theorem unknown_tail_window_open (s : RangedIter.St) (cid : Nat) (st : Selector.ChkSt) (c : CIndex.Chk)
+    (hc : CIndex.findChk s.cidx (cid / 10) = some c) (hu : st.count > c.recs) (p : Nat) (hp : p ≤ maxU32) :
+    inWindow ((RangedIter.updatePoss s cid st).1.minPos, (RangedIter.updatePoss s cid st).1.maxPos) p := by
+  have f : Generated.C02.updatePossOpensUnknownTail = true := by decide
+  simp only [RangedIter.updatePoss, hc, f, Bool.true_and, decide_eq_true hu, if_true]
+  exact ⟨Nat.zero_le _, hp⟩
+
+/-- (fix d4bea54, was finding #53) `syncChunks` keeps a chunk that was created after the caller's chunk list was taken:
+the reachable state "the newest chunk's entry forgotten, re-created from one batch" of the forget-race schedule no longer
+exists (driver op `rw.forgetchunk` is the identity; regression schedule `runForgetRace`). -/
+theorem syncChunks_keeps_newer_chunks : Generated.C02.syncChunksKeepsNewerChunks = true := by decide
+
+/-- (fix 008ef8e) at the end of the last chunk the ranged iterator's position is where its chunk iterator stopped -/
+theorem advanceChunk_keeps_iterator_position : Generated.C02.advanceChunkKeepsIteratorPos = true := by decide
+
 /-! ## the headline: every monotone history of Write calls, whole partition -/
 
 /-- **range_eq_filter_calls** — C02 on monotone data, end to end at the Points level. For EVERY history of
